@@ -25,6 +25,8 @@ def hms(s):
 
 
 def text(e, with_time, spelling="ymd"):
+    if spelling == "epoch":
+        return "@%d" % e
     o, s = split(e)
     D = cal.Day(o)
     t = {"ymd": D.ymd, "ywd": D.ywd, "yd": D.yd, "ymcw": D.ymcw}[spelling]()
